@@ -33,6 +33,45 @@ def proc(mode, aborts=1, pre=0, code=0, tmode=2, td=0, cmode=0, cd=0, killable=0
     return ["c11.proc", mode, aborts, [pre, code, tmode, td, cmode, cd, killable, holds, wd, n]]
 
 
+BIG = 262200                   # a request far beyond what the OS pipe of a child's stdin takes unread (64 KiB)
+SMALL = 40
+PIPE_CAP = 65536
+
+
+def start(n=2, all_=0, answers=0, delay=0, reads=0, release=1, code=3, length=BIG, sd=0):
+    """mode 5: the real runTestCasesForServer over the real runCommand around a child scripted in what it does with
+    its stdin: (all answers delay reads release code len cap sd n); release 0 keeps stdin open unread, 1 exits with
+    `code`, 2 closes its stdin and stays until SIGTERM; sd = the starter hands the process over this much later"""
+    return ["c11.proc", 5, 1, [all_, answers, delay, reads, release, code, length, PIPE_CAP, sd, n]]
+
+
+def start_cases(tier):
+    ns = (0, 2, 3)
+    # the child lets go of its stdin by EXITING: at once without reading (before / racing with / after the writes),
+    # after a delay during which the write of a big request is blocked, after reading k bytes
+    for i, kw in enumerate((dict(length=BIG), dict(length=BIG, sd=1000), dict(length=SMALL, sd=1000), dict(length=BIG, delay=2000),
+                            dict(length=SMALL, delay=2000), dict(length=BIG, reads=100), dict(length=BIG, reads=4, sd=1000),
+                            dict(length=SMALL, reads=4), dict(length=SMALL), dict(length=BIG, reads=PIPE_CAP, sd=1000),
+                            dict(length=BIG, reads=100, delay=2000))):
+        for code in (0, 3):
+            yield start(n=ns[(i + code) % 3], code=code, **kw)
+    # it closes its stdin after the request was written and taken by the OS pipe, or keeps it open unread, or reads
+    # everything and says nothing: the response time-out ends the start
+    yield start(n=2, release=2, length=SMALL, delay=2000)
+    yield start(n=3, release=0, length=SMALL)
+    yield start(n=2, all_=1, length=SMALL)
+    yield start(n=2, all_=1, length=BIG)
+    # control: it reads the request and answers (with a certificate: TLS is on) -> every case passes
+    yield start(n=3, all_=1, answers=1, length=SMALL)
+    yield start(n=3, all_=1, answers=1, length=BIG, sd=1000)
+    # KNOWN FINDING request-write-unbounded: it CLOSES its stdin unread and stays alive while a write is pending
+    yield start(n=2, release=2, length=BIG)
+    yield start(n=2, release=2, length=SMALL, sd=1000)
+    if tier != "quick":
+        yield start(n=1, release=2, length=BIG, delay=2000)
+        yield start(n=1, release=2, length=BIG, reads=100)
+
+
 def proc_cases(rng):
     """every child behaviour x every way of stopping it; every scripted delay is >= 1 s away from every other
     event of the same script (5000 forced close, 10000 giving up, WaitDelay), so only the ORDER is observed"""
@@ -85,7 +124,8 @@ LINE_SHAPES = [b"S/a: m1", b"S/b: m2", b"S/a: again", b"Q/zz: not in the batch",
 class C11(Prop):
     id = "C11"
     props = "C11_Props"
-    coq_files = ("Base", "C11_Consts", "C11_Proc", "C11_Model", "C11_Spec", "C11_Proofs", "C11_ProcProofs", "C11_Props")
+    coq_files = ("Base", "C11_Consts", "C11_Proc", "C11_Start", "C11_Model", "C11_Spec", "C11_Proofs", "C11_ProcProofs",
+                 "C11_StartProofs", "C11_Props")
     models = ("C11_Model",)
     packages = {"cc": "internal/app/connectconformance"}
     kinds = {"c11.batch": "cc", "c11.proc": "cc"}
@@ -110,7 +150,14 @@ class C11(Prop):
             "cmdProcess.abort/result/whenDone/markDone over a scripted operating system (every combination of reaction to "
             "SIGTERM x reaction to the forced close x killable or not x WaitDelay none / inside the first / inside the second "
             "wait, 1..3 abort calls); the real localProcess of runInProcess (returns at once / late / after the period / "
-            "never); runTestCasesForServer over the scripted cmdProcess and over a localProcess with batches of 0..5. "
+            "never); runTestCasesForServer over the scripted cmdProcess and over a localProcess with batches of 0..5; "
+            "mode 5 (30 cases): the real runTestCasesForServer over the real runCommand around a child scripted in what it does "
+            "with its STDIN - exits at once without reading (before / racing with / after the two writes of the request: the "
+            "starter hands the process over at once or 1 s later), after 2 s during which the write is blocked, after reading "
+            "4 / 100 / 65536 bytes, with exit status 0 and 3; closes its stdin and stays; keeps it open unread; reads all and "
+            "says nothing; reads all and answers (control: all pass) - with a request of a few bytes and of 256 KiB (server "
+            "credentials; far beyond the 64 KiB an OS pipe takes unread, so the write really blocks): returned within the "
+            "patience, child gone (kill(pid,0)), passes, setup errors with exactly one outcome. "
             "Compared: returned within 3 x (both waits) [a correct implementation needs <= 1/3 of that], class of the error "
             "(nil, exit status, signal, context.Canceled, gave up, deadline, own error), child gone at return (kill(pid,0)), "
             "forced closes, passes recorded. The three durations are regenerated from the compiled code into C11_Consts.v "
@@ -147,7 +194,12 @@ class C11(Prop):
                   "not depend on the flavour). process.go: for EVERY child behaviour script and all durations with a WaitDelay, "
                   "abort();result() returns within the two waits of abort's goroutine, by then + WaitDelay the child is gone or "
                   "was sent SIGKILL (already at return, and gone if killable, with the code's durations); localProcess within one "
-                  "period; the stop phase of runTestCasesForServer within max(both waits, 2 periods). Model tied to "
+                  "period; the stop phase of runTestCasesForServer within max(both waits, 2 periods). Start phase over a real "
+                  "OS process: for EVERY request size, pipe capacity, starter delay and child stdin script in which the child "
+                  "takes the request or lets go of its stdin by EXITING (dead before the first byte, after k bytes, after any "
+                  "delay), the write of the request returns (done or failed) and the function returns within that delay + the "
+                  "response time-out + both waits, with process.go's plumbing as it is (start_fault_bounded_code); a plumbing "
+                  "that closes the pipe on neither occasion never wakes the writer (unwoken_write_never). Model tied to "
                   "server_runner.go / process.go by an exhaustive fault-point differential run and real child processes.")
     level_note = ("Trusted: Coq kernel, extraction, OCaml driver, harness. Model-code correspondence is sampled (every fault "
                   "point and every callback timing vector for batches <= 5; ~130 process scripts), not proved. results.go, "
@@ -155,7 +207,12 @@ class C11(Prop):
                   "function rests on the client runner firing every callback (C10), on serverResponseTimeout (C09) and on "
                   "abort();result() returning (abort_bounded / local_bounded / batch_stop_bounded, for every child behaviour "
                   "script). Time is modelled in ms with exact event times; the differential run observes only the ORDER of "
-                  "events more than a second apart and a 3x patience bound, never durations.")
+                  "events more than a second apart and a 3x patience bound, never durations. KNOWN FINDING "
+                  "request-write-unbounded (reported on every run, exit 0): a server command that closes its stdin unread and "
+                  "stays alive while a write of the request is pending blocks the function for ever (not reachable through "
+                  "Run(): its requests are a few KB, written right after cmd.Start); a child that keeps its stdin open without "
+                  "reading a request larger than the pipe takes blocks the write in code and model alike and is outside "
+                  "start_fault_bounded's hypothesis (lets_go); neither is generated beyond the two known-finding cases.")
     technique = ("Coq proofs by induction over arbitrary fault scripts (permutation invariant of the outcome log), timed "
                  "state machine for process.go with constants regenerated from the code; differential model-vs-Go on scripted "
                  "fakes at every fault point and on real re-executed child processes run concurrently")
@@ -166,6 +223,8 @@ class C11(Prop):
             r = core.parse_sx("(" + res + ")")[0]
         except Exception:
             return False
+        if case[0] == "c11.proc" and case[1] == 5:
+            return isinstance(r, list) and len(r) == 6 and r[0] == 1 and (r[4] + r[5] > 0 or case[3][9] == 0)
         if case[0] == "c11.proc":
             return isinstance(r, list) and len(r) == 5 and r[0] == 1 and (r[1] != 0 or r[3] != 0 or r[4] != 0 or r[2] == 0)
         if not isinstance(r, list) or len(r) < 8:
@@ -173,7 +232,31 @@ class C11(Prop):
         kinds = {p[0] for p in r[0]}
         return len(kinds) >= 2 or len(r[7]) > 1 or any(p[2] for p in r[0]) or (len(kinds) == 1 and kinds != {1})
 
+    def classify(self, case, g, m):
+        """known finding request-write-unbounded: exactly the mode-5 scripts in which the child closes its stdin unread
+        and stays alive while a write of the request is pending, the real function does not return and the model
+        (with the plumbing bounded termination needs) does"""
+        if case[0] != "c11.proc" or case[1] != 5:
+            return None
+        all_, answers, delay, reads, release, code, length, cap, sd, n = case[3]
+        pending = (reads == 0 and delay <= sd) or length > reads + cap
+        if all_ == 0 and release == 2 and pending and g == "(0 0 0 0 0 0)" and m == "(1 0 1 0 0 %d)" % n:
+            return "request-write-unbounded"
+        return None
+
     def describe(self, case, g, m):
+        if case[0] == "c11.proc" and case[1] == 5:
+            try:
+                r = core.parse_sx("(" + g + ")")[0]
+                if isinstance(r, list) and len(r) == 6 and r[0] == 0:
+                    return ("runTestCasesForServer over a real server command (runCommand) that exits / closes its stdin "
+                            "before it has read the request did NOT return within 3 x the two waits of abort's goroutine: the "
+                            "write of the ServerCompatRequest is never woken (property: the batch ends in bounded time with a "
+                            "setup error for every case when the server cannot be started)")
+            except Exception:
+                pass
+            return ("runTestCasesForServer over a real server command scripted in what it does with its stdin: in-time / "
+                    "child gone / passes / setup errors differ from the proved model of the start phase")
         if case[0] == "c11.proc":
             what = ["a real OS child process under runCommand's cmdProcess", "cmdProcess over a scripted operating system",
                     "a real localProcess", "runTestCasesForServer over a scripted cmdProcess",
@@ -325,6 +408,8 @@ class C11(Prop):
         # (f) process.go: stopping the server process (real children, scripted OS, in-process); seconds each, all
         #     started together by the harness when the run begins, so they cost the longest of them (10 s)
         yield from proc_cases(rng)
+        # (g) the start phase over real children that exit / close their stdin before, while or after the request is written
+        yield from start_cases(tier)
 
     # ------------------------------------------------------------------
     def durations(self):
